@@ -24,7 +24,10 @@ ACTION_TYPES = [
 ROUTER_TYPES = ["wait_for_response", "wait_for_response", "split_by_value", "split_by_group", "split_random",
                 "start_new_flow", "call_webhook", "transfer_airtime"]
 TEST_TYPES = ["", "", "", "has_any_word", "has_phrase", "has_only_phrase", "has_beginning", "has_number_eq", "has_pattern"]
-WORDS = ["yes", "no", "maybe", "red", "blue", "7", "stop", "go", "Alpha", "beta gamma"]
+# ordinary answers, plus words whose generated category name collides with a reserved one
+# ("Other", "Expired", "Success", …): they are ordinary condition values all the same
+WORDS = ["yes", "no", "maybe", "red", "blue", "7", "stop", "go", "Alpha", "beta gamma",
+         "other", "Other", "OTHER", "expired", "complete", "success", "failure", "all responses", "yes_alt", "Yes"]
 
 
 def field_key(name: str) -> str:
